@@ -262,8 +262,16 @@ func checkEdits(c *Ctx, deletes bool) {
 			for i, h := range act {
 				op := h.pend
 				it := iterAt(h.pj, op.K)
+				via := "AdvanceInto"
+				// three edits in four go through an iterator handed out by the element APIs
+				// (Parse/NextElement/ForEach/AdvanceIter), whose tape view ends with the element
+				if rt := r.Intn(1 << 12); rt%4 != 0 {
+					if it2, ok := iterByPath(h.pj, op.Path, rt>>2); ok && it2.Type() == it.Type() {
+						it, via = it2, fmt.Sprintf("element-route %d", rt>>2)
+					}
+				}
 				cb, err, pan := safeApply(op, &it)
-				h.ops = append(h.ops, fmt.Sprintf("k=%d path=%s %s", op.K, pathStr(op.Path), op.Desc))
+				h.ops = append(h.ops, fmt.Sprintf("k=%d path=%s %s via %s", op.K, pathStr(op.Path), op.Desc, via))
 				info := map[string]interface{}{"doc_hex": fmt.Sprintf("%x", h.doc), "doc_text": printable(h.doc), "copy": h.copy, "history": strings.Join(h.ops, " ; "), "state_before": trunc(h.before, 1500), "oracle": trunc(ans[i], 1500)}
 				if pan != "" {
 					c.Violate("panic", "edit operation panicked: "+pan, "edit-panic", info)
